@@ -12,7 +12,7 @@ import numpy as np
 
 from .. import tgen, tprog
 
-LEAN_TARGETS = ["YProofs.Props.C01"]
+LEAN_TARGETS = ["YProofs.Props.C01", "YProofs.Props.C01Dot"]
 LEVEL = "proof"
 TRANSLATORS = ["gen_sym"]
 DRIVER = "drv_c01"
@@ -23,7 +23,7 @@ OPS = ["tensordot", "tensordot", "tensordot", "add", "sub", "transpose", "conj",
 
 
 def program_budget(ctx):
-    return (700, (2, 8)) if ctx.quick else (12000, (2, 12))
+    return (2400, (2, 8)) if ctx.quick else (20000, (2, 12))
 
 
 def zero_extras(ro, mo):
@@ -249,7 +249,7 @@ def run(ctx):
                 "consume_transpose} on tensors of all 7 symmetries, ranks 0-6, real/complex integer data, random block subsets; ~12% malformed "
                 "steps; after every step real observables == model observables (exact) and == NumPy on dense operands; a program is "
                 "non-trivial if some step result has >=2 blocks; distinct by (sym, policy, op sequence)")
-    budget = 75 if ctx.quick else 800
+    budget = 50 if ctx.quick else 800
     for it in range(nprog):
         if ctx.elapsed() > budget:
             ctx.count("stopped-by-time-budget")
